@@ -18,6 +18,10 @@ func main() {
 			fatal("usage: gosym check <ID> <quick|thorough>")
 		}
 		os.Exit(runCheck(os.Args[2], os.Args[3]))
+	case "concrete":
+		os.Exit(runConcrete(os.Args[2:]))
+	case "difftest":
+		os.Exit(runDiff(0))
 	case "replay":
 		os.Exit(runReplay(os.Args[2]))
 	default:
